@@ -122,7 +122,7 @@ CHECKS = {
         technique="Lean 4 proof (composition of C03 and C05; small lemmas on the sink models) + differential correspondence sync vs async vs model"),
     "C10": dict(
         category="proof",
-        text="Lean theorems: crlf_no_bare_lf, crlf_idempotent, auto_range, sevenbit_ok and sevenbit_requested_ok (when 7bit is chosen or "
+        text="Lean theorems: crlf_no_bare_lf, crlf_idempotent, crlf_only_line_endings (a CRLF-as-line-break reader sees the same text before and after the conversion), auto_range, sevenbit_ok and sevenbit_requested_ok (when 7bit is chosen or "
              "accepted the output is ASCII without NUL, CR/LF only as CRLF, lines within 998), roundtrip_identity, roundtrip_base64 (a "
              "reader ignoring line breaks recovers the octets: proved through a base64 inverse and chunking lemmas), "
              "roundtrip_quoted_printable (an RFC 2045 6.7 reader gives back every content: proved through an item-level semantics of the "
